@@ -248,7 +248,7 @@ class LRun:
 
     def bads(self):
         """provable disagreements met while reading (a slice or a read that cuts what the writer emitted)"""
-        out = []
+        out = [b.why for b in self.W.misreads]
 
         def look(v):
             if is_bad(v):
@@ -406,12 +406,9 @@ class Lab:
         return LRun(wr, W2, ev2)
 
 
-_LABS = {}
-
-
 def lab(ctx):
-    k = id(ctx)
-    if k not in _LABS:
-        _LABS.clear()
-        _LABS[k] = Lab(ctx)
-    return _LABS[k]
+    """the runs of one checker invocation (kept on the context: the rules share them)"""
+    got = getattr(ctx, "_c04_lab", None)
+    if got is None:
+        got = ctx._c04_lab = Lab(ctx)
+    return got
